@@ -42,7 +42,7 @@ m = {
         {"property_id": p["id"], "reason": na_reasons.get(p["id"], "check not built yet (construction in progress, see DESIGN.md section 7); not claimed")}
         for p in props if p["id"] not in frags
     ],
-    "notes": "All checks: `./check <id> --tier quick|thorough`; seeds via VERIF_SEED. Known findings: known_findings.json. Design: DESIGN.md.",
+    "notes": "All checks: `./check <id> --tier quick|thorough [--replay <file>]`; seeds via VERIF_SEED; exit 0 / exit 1 with `VIOLATION property=<id> replay=<path>` (ending in no-failing-input-found when only a proof obligation or the model/implementation correspondence broke and no failing input was found) / exit 2 for a harness error. Known findings and the `fixed:` log of the defects repaired in /repo (73 unguarded `fix:` commits, D1-D73): known_findings.json, DESIGN.md sections 8 and 11. Independently seeded property-breaking changes (281, five rounds) with the verdict of each check: seeded/<id>/, DESIGN.md section 11.4. No source hooks were added to /repo.",
 }
 json.dump(m, open(os.path.join(root, "MANIFEST.json"), "w"), indent=1)
 print("claimed:", [c["property_id"] for c in checks])
